@@ -57,7 +57,7 @@ func C14(c *Ctx) {
 	if !raw.PointOK() || !raw.ScalarOK() || !raw.ElementOK() {
 		c.Inconclusive("raw layout guard failed: receiver snapshots fall back to Bytes()")
 	}
-	n := c.N(240000, 6000000)
+	n := c.N(240000, 24000000)
 	for i := int64(0); i < n; i++ {
 		if !c.Mine(i) {
 			continue
